@@ -408,3 +408,31 @@ def pipeline(pid, tier, replay, spec_dir, mc_runs, gens, drivers, replay_driver,
     if rc == 0:
         shutil.rmtree(wd, ignore_errors=True)
     return rc
+
+
+# --------------------------------------------------------------------------- sweeps of independent experiments
+def validate_collect(wd, rows, module, head, label="sweep", timeout=3000):
+    """For traces whose rows are independent experiments: the trace module defines `Failed` (set of names of the rules
+    the line just consumed violates) and CONSTRAINT CollectViol prints <<"viol", index, Failed>>; TLC runs once over the
+    whole trace and every violating row is reported. Returns (events, [(row_index0, [rule names])])."""
+    tf = os.path.join(wd, "%s.ndjson" % label)
+    write_ndjson(tf, rows)
+    cfg = os.path.join(wd, "%s.cfg" % label)
+    with open(cfg, "w") as f:
+        f.write(head.replace("@TRACE@", os.path.basename(tf)))
+        f.write("CONSTRAINT HiWater\nCONSTRAINT CollectViol\nPOSTCONDITION Accepted\nCHECK_DEADLOCK FALSE\n")
+    r = tlc(wd, module, os.path.basename(cfg), workers=1, timeout=timeout)
+    if r.status in ("error", "timeout") or (r.status == "violation" and r.kind != "PostCondition"):
+        raise Machinery("TLC %s/%s while validating %s:\n%s" % (r.status, r.kind, label, r.out[-3000:]))
+    hw = None
+    viols = []
+    for p in r.prints:
+        m = re.match(r'<<"hiwater", (\d+), (\d+)>>', p)
+        if m:
+            hw = (int(m.group(1)), int(m.group(2)))
+        m = re.match(r'<<"viol", (\d+), \{(.*)\}>>', p)
+        if m:
+            viols.append((int(m.group(1)) - 1, [x.strip().strip('"') for x in m.group(2).split(",") if x.strip()]))
+    if not hw or hw[0] != hw[1] or hw[0] != len(rows):
+        raise Machinery("sweep trace not fully consumed: %s\n%s" % (hw, r.out[-2000:]))
+    return len(rows), viols
